@@ -91,7 +91,20 @@ def main(run):
         accepted.append(name)
         if idx % nsh != sh:
             continue
-        dict_input = bool(getattr(lf, "_dict_input_metric", False))
+        # which metrics are dict-based is decided HERE, not read off the library's wrapper: a metric whose fresh instance accepts a
+        # single value (number or label) is a single-value metric
+        dict_input = True
+        for probe in ((0, 0), (1, 0.5), (True, 0.25), (True, False), ("a", "b")):
+            try:
+                cls().update(*probe)
+                dict_input = False
+                break
+            except Exception:
+                pass
+        run.ok(kind="input-kind")
+        if bool(getattr(lf, "_dict_input_metric", dict_input)) != dict_input:
+            run.violation("input-routing", f"{name}: a fresh {name} accepts single values, but the loss built from it hands over "
+                                           f"{'the whole dict' if not dict_input else 'a single value'}", {"metric": name})
         kind = "reg" if isinstance(m, RegressionMetric) else ("bin" if isinstance(m, BinaryMetric) else "multi")
         sign = -1.0 if getattr(m, "bigger_is_better", False) else 1.0
         requires_labels = getattr(m, "requires_labels", True)
